@@ -58,3 +58,17 @@ pub fn vec_extend_array<const N: usize>(v: &mut Vec<u8>, a: [u8; N])
 pub fn vec_from_box(b: Vec<u8>) -> (r: Vec<u8>)
     ensures r@ == b@,
 { b }
+
+// <&mut [u8] as io::Write>::write(src).expect(..) (R6): copies min(len) bytes to the front of the
+// destination and advances the destination slice past them; never fails.
+// (bounded cross-check on the real std impl: kani harness std_slice_write)
+#[verifier::external_body]
+pub fn slice_write(buf: &mut &mut [u8], src: &[u8]) -> (r: usize)
+    ensures
+        r == min_int(old(buf)@.len() as int, src@.len() as int),
+        final(buf)@ == old(buf)@.skip(r as int),
+        final(*old(buf))@ == src@.take(r as int) + final(*final(buf))@,
+{
+    use std::io::Write;
+    buf.write(src).expect("writing into &mut [u8] should always succeed")
+}
